@@ -302,6 +302,21 @@ def check_pair(ctx, key, da, db, mclass, shape, ma, mb):
                 judge(op, o, 'value', va / vb,
                       tuple(p - q for p, q in zip(veca, vecb)))
         if a_is_q:
+            # an operand combined with ITSELF (the very same object) and a
+            # NaN magnitude: still the operation on the SI magnitudes
+            for op in ('==', '!=', '<', '<=', '>', '>='):
+                judge(op + ' (same object)', observe(BINOPS[op], A, A),
+                      'bool', BINOPS[op](va, va))
+            judge('+ (same object)', observe(operator.add, A, A), 'value',
+                  va + va, veca)
+            judge('- (same object)', observe(operator.sub, A, A), 'value',
+                  va - va, veca)
+            N = make([float('nan')] * len(ma), da, arr_a, via_ctor=False)
+            vn = va * float('nan')
+            judge('== (NaN magnitude, same object)',
+                  observe(operator.eq, N, N), 'bool', vn == vn)
+            judge('!= (NaN magnitude, same object)',
+                  observe(operator.ne, N, N), 'bool', vn != vn)
             judge('neg', observe(operator.neg, A), 'value', -va, veca)
             judge('abs', observe(abs, A), 'value', abs(va), veca)
             for k in (2, -1, 0.5, 0, 3):
